@@ -88,6 +88,7 @@ func (e *Exec) resetPath(prefix []Decision) {
 	e.sawAssert = false
 	e.symAssert = false
 	e.locCell = nil
+	e.pcDirty = false
 }
 
 // runInit executes the package initialisers of astisub and the whitelisted dependencies.
@@ -135,7 +136,7 @@ func (e *Exec) runPath(h *ssa.Function, prefix []Decision) (end string, msg stri
 	}()
 	e.runInit()
 	e.callFn(h, nil, nil, nil)
-	if e.sol.Check() == "unsat" {
+	if e.pcDirty && e.sol.Check() == "unsat" {
 		return "infeasible", ""
 	}
 	return "ok", ""
